@@ -247,6 +247,7 @@ class Stream:
         self.ch = ch
         self.sim = sched.Sim(ch)
         sched.CURRENT = self.sim
+        simfs.mount(simfs.SimFS(None))
         self.violations = []
         self.vkeys = set()
         self.evals = 0
@@ -283,6 +284,29 @@ class Stream:
             res.append(None)
         return res
 
+    def feed_variants(self, text, hdr):
+        """the other ways a body reaches the tree builder: a file name instead of a stream, the other header
+        kind, blank lines around header and body, an explicitly supplied TreeBuilder"""
+        from ofxtools.Parser import TreeBuilder, OFXTree
+        out = []
+        other = V1HDR if hdr is V2HDR else V2HDR
+
+        def attempt(name, fn):
+            try:
+                root = fn()
+                out.append((name, "tree" if root is not None else "none"))
+            except Exception:
+                out.append((name, None))
+        data = (hdr + text).encode("ascii")
+        fs = simfs.FS
+        fs.write_bytes(simfs.ROOT + "/in/doc.ofx", data)
+        attempt("OFXTree.parse(file name)", lambda: OFXTree().parse(simfs.ROOT + "/in/doc.ofx"))
+        attempt("OFXTree.parse(other header kind)", lambda: OFXTree().parse(io.BytesIO((other + text).encode("ascii"))))
+        attempt("OFXTree.parse(blank lines around)", lambda: OFXTree().parse(io.BytesIO(b"\r\n\r\n" + hdr.encode() + b"\r\n" + text.encode("ascii") + b"\r\n  \r\n")))
+        attempt("OFXTree.parse(parser=TreeBuilder())", lambda: OFXTree().parse(io.BytesIO(data), parser=TreeBuilder()))
+        self.sim.count("probe.entry_point_variants", len(out))
+        return out
+
     def judge(self, kind, desc, text, hdr, form):
         import hashlib
         self.evals += 1
@@ -295,7 +319,10 @@ class Stream:
                 self.rejected_wellformed += 1
             return
         self.nontrivial.add(hashlib.sha256(text.encode()).digest()[:8])
-        for api, got in (("TreeBuilder.feed+close", r[0]), ("OFXTree.parse", r[1])):
+        extra = []
+        if self.evals % 5 == 0:
+            extra = self.feed_variants(text, hdr)
+        for api, got in [("TreeBuilder.feed+close", r[0]), ("OFXTree.parse", r[1])] + extra:
             if got is not None:
                 snippet = text if len(text) <= 400 else text[:180] + " ... " + text[-180:]
                 what = "returned an element tree" if got == "tree" else "returned None without an error"
